@@ -67,7 +67,7 @@ module.exports = function (repo, loadPrelude) {
     src += ' return function() {\n' +
       '  var g = { asleep: false, exit: false, deferStack: [], panicStack: [] }, out;\n' +
       '  $curGoroutine = g; $panicStackDepth = null; $stackDepthOffset = 0;\n' +
-      '  try { (function $goroutine() { F[0](0, {v: 0}); })(); out = g.exit ? "goexit" : "normal"; }\n' +
+      '  try { (function $goroutine() { F[0](0, {v: 0}); })(); out = "normal"; }\n' +
       '  catch (err) { if (g.exit) { out = "goexit"; } else if (err instanceof Error) { out = "panic" + err.message; } else if (err === null) { out = "stuck1"; } else { out = "stuck?" + String(err); } }\n' +
       '  finally { $curGoroutine = $noGoroutine; }\n' +
       '  return { trace: T, out: out, state: "off=" + $stackDepthOffset + " psd=" + $panicStackDepth + " ps=" + g.panicStack.length + " ds=" + g.deferStack.length };\n' +
